@@ -51,11 +51,30 @@ def near_field_kernels(ctx):
                 return True
             return None
 
-        it = Interp(m, fn, {p[0]: tp, p[1]: sp, p[2]: kp, p[3]: Opq("dtype", "dtype"), p[4]: Opq("result_type", "dtype")},
-                    {"globals": {"M_INV_4PI": K.INV4PI if hasattr(K, "INV4PI") else None, "_np": Opq("_np", "module")}, "if": if_hook})
         from .alg import INV4PI
-        it.hooks["globals"]["M_INV_4PI"] = INV4PI
-        res = it.run()
+
+        def interpret(skip_sign):
+            it_ = Interp(m, fn, {p[0]: tp, p[1]: sp, p[2]: kp, p[3]: Opq("dtype", "dtype"), p[4]: Opq("result_type", "dtype")},
+                         {"globals": {"M_INV_4PI": INV4PI, "_np": Opq("_np", "module")}, "if": if_hook, "skip_sign": skip_sign})
+            return it_, it_.run()
+
+        it, res = interpret(False)
+        if it.seen_sign_ifs:
+            # a guard on the sign of a kernel parameter: the value where the guard fails must be the same function
+            del zero_fix[:]
+            it2, res2 = interpret(True)
+            t_, j_ = symex.fresh("t"), symex.fresh("j")
+            symex.RANGES[t_], symex.RANGES[j_] = NT, NS
+            for c in range(4):
+                slot = V.atom(t_) * V.const(4) * NS + V.const(4) * V.atom(j_) + V.const(c)
+                if not tov(it.index(res, [slot], fn)).eq(tov(it2.index(res2, [slot], fn))):
+                    from .core import SignGuard
+
+                    raise SignGuard(FH, fname, fn.lineno, "sign guard: " + "; ".join(x for _, x in it.seen_sign_ifs),
+                                    "the kernel applies part of its formula only when `%s`: for the other sign of that parameter component %d is a different function (the kernel is analytic in its parameters; "
+                                    "a factor that depends on the parameter cannot be dropped on a half-line)" % ("`, `".join(x for _, x in it.seen_sign_ifs), c))
+            del zero_fix[:]
+            it, res = interpret(False)
         t, j = symex.fresh("t"), symex.fresh("j")
         symex.RANGES[t], symex.RANGES[j] = NT, NS
         env = {}
